@@ -153,7 +153,7 @@ var VerifC08Off32Limit uint64 = 0x7fffffff
 
 // verifC08FirstBytes: the fanout fill loops run over the first byte of a
 // name; the harness draws it from this list (boundaries of the table).
-var verifC08FirstBytes = []byte{0x00, 0x01, 0x7f, 0xfe, 0xff}
+var verifC08FirstBytes = []byte{0x00, 0xff, 0x01, 0xfe, 0x7f}
 
 // VerifC08Rows draws n rows: first name byte from verifC08FirstBytes (FB of
 // them), SYM further name bytes symbolic (the last ones, so that ties on a
